@@ -80,22 +80,34 @@ func runConcDirectBatch(c *core.Ctx, seed int64, rounds int) {
 	voc := genVocab(rng)
 	voc.longText = true
 	voc.ciBias = true
-	b := &doifBatch{voc: voc, now: time.Now()}
+	now := time.Now()
+	var rules []*rule
 	for i := 0; i < 8; i++ {
-		b.rules = append(b.rules, genRule(rng, voc, rng.Intn(3), true))
+		rules = append(rules, genRule(rng, voc, rng.Intn(3), true))
 	}
-	voc.indexRules(b.rules)
-	for i := 0; i < 40; i++ {
-		b.events = append(b.events, genEvent(rng, voc, nil, b.now))
+	voc.indexRules(rules)
+	var shared []*val
+	for i := 0; i < 16; i++ {
+		shared = append(shared, genEvent(rng, voc, nil, now))
 	}
-	for _, r := range b.rules {
+	nG := 2 + int(uint64(seed)%7) // 2..8 goroutines
+	st.count(fmt.Sprintf("conc.direct.batches_with_%d_goroutines", nG), 1)
+	for _, r := range rules {
+		// the events of this rule: the shared ones plus ones aimed at its leaves
+		// (so that most of them reach the comparison inside the nodes)
+		events := append([]*val{}, shared...)
 		ls := r.leaves(nil)
-		for i := 0; i < 3; i++ {
-			b.events = append(b.events, genEvent(rng, voc, ls, b.now))
+		for i := 0; i < 32; i++ {
+			events = append(events, genEvent(rng, voc, ls, now))
 		}
+		runConcRule(c, st, r, events, nG, rounds, seed)
 	}
+}
 
-	// the checkers: every tree and every leaf on its own (a leaf alone names the operator)
+// runConcRule: the tree r and each of its leaves alone (a leaf alone names
+// the operator), over one set of decoded events.
+func runConcRule(c *core.Ctx, st *stats, r *rule, events []*val, nG, rounds int, seed int64) {
+	b := &doifBatch{events: events}
 	var cks []*concChecker
 	add := func(r *rule) {
 		chk, cfg, err := buildChecker(r.toMap(nil))
@@ -104,12 +116,10 @@ func runConcDirectBatch(c *core.Ctx, seed int64, rounds int) {
 		}
 		cks = append(cks, &concChecker{r: r, chk: chk, cfg: cfg})
 	}
-	for _, r := range b.rules {
-		add(r)
-		if r.isLogical() {
-			for _, l := range r.leaves(nil) {
-				add(l)
-			}
+	add(r)
+	if r.isLogical() {
+		for _, l := range r.leaves(nil) {
+			add(l)
 		}
 	}
 
@@ -163,8 +173,6 @@ func runConcDirectBatch(c *core.Ctx, seed int64, rounds int) {
 
 	// concurrent sweeps, checker by checker so that all goroutines are inside
 	// the same node at the same time
-	nG := 2 + int(uint64(seed)%7) // 2..8
-	st.count(fmt.Sprintf("conc.direct.batches_with_%d_goroutines", nG), 1)
 	type mismatch struct {
 		ei, round, g int
 		got          bool
@@ -186,14 +194,19 @@ func runConcDirectBatch(c *core.Ctx, seed int64, rounds int) {
 				n := int64(0)
 				for round := 0; round < rounds; round++ {
 					for ei := g; ei < nE; ei += nG { // disjoint events, own roots
-						got, pan := realCheck(ck.chk, roots[ei])
-						n++
-						if pan != "" || got != base[ci][ei] {
-							mu.Lock()
-							if len(bad) < 4 {
-								bad = append(bad, mismatch{ei, round, g, got, pan})
+						// every event twice in a row (consecutive events with the
+						// same content are common in logs; a node that remembers
+						// its last input is exercised that way)
+						for rep := 0; rep < 2; rep++ {
+							got, pan := realCheck(ck.chk, roots[ei])
+							n++
+							if pan != "" || got != base[ci][ei] {
+								mu.Lock()
+								if len(bad) < 4 {
+									bad = append(bad, mismatch{ei, round, g, got, pan})
+								}
+								mu.Unlock()
 							}
-							mu.Unlock()
 						}
 					}
 				}
@@ -231,7 +244,7 @@ func runConcDirectBatch(c *core.Ctx, seed int64, rounds int) {
 				map[string]any{"rule": ck.cfg, "event": evJSON[m.ei], "sequential": base[ci][m.ei], "concurrent": m.got, "goroutines": nG, "round": m.round})
 		}
 	}
-	if seed%11 == 0 && len(cks) > 0 {
+	if seed%11 == 0 && len(cks) > 0 && !r.isLogical() {
 		c.Sample(map[string]any{"part": "concurrent-direct", "rule": cks[0].cfg, "goroutines": nG, "events": nE, "rounds": rounds})
 	}
 }
